@@ -209,15 +209,37 @@ theorem setCrcType_primary (t : Nat) : setCrcTypePrimary t ≠ 0 := by
   unfold setCrcTypePrimary; split <;> omega
 
 /-- **`block_burst_rejected`**: if a block is accepted, then the same block with a burst of at most
-the CRC width anywhere in the bytes before the CRC item — lengths, CRC item and everything after it
-unchanged, i.e. block boundaries intact — is rejected with "invalid CRC value". -/
-theorem block_burst_rejected (t : Nat) (ht : t = 1 ∨ t = 2) (pre d d' post field rest : Bytes)
+the CRC width anywhere in the bytes before the CRC item — lengths, CRC item (in whatever encoding) and
+everything after it unchanged, i.e. block boundaries intact — is rejected with "invalid CRC value". -/
+theorem block_burst_rejected (t : Nat) (ht : t = 1 ∨ t = 2) (pre d d' post rest v rest' : Bytes)
     (hlen : d.length = d'.length)
     (hb : span (xorBits (bitsOf d) (bitsOf d')) ≤ crcWidth t) (hne : d ≠ d')
-    (hf : field.length ≤ maxInt32)
-    (hacc : checkField (pre ++ d ++ post) t (encBytes field ++ rest) = .ok (field, rest)) :
-    checkField (pre ++ d' ++ post) t (encBytes field ++ rest) = .error .crc :=
-  Lemmas.block_burst_rejected t ht pre d d' post field rest hlen hb hne hf hacc
+    (hacc : checkField (pre ++ d ++ post) t rest = .ok (v, rest')) :
+    checkField (pre ++ d' ++ post) t rest = .error .crc :=
+  Lemmas.block_burst_rejected t ht pre d d' post rest v rest' hlen hb hne hacc
+
+/-- **`canonical_burst_rejected`** (parser level): two encodings that the model parser delimits the same
+way — 6-element array, same CRC type, same unread input `r` after the block-specific data, hence the same
+CRC item and the same following blocks — and whose tee'd bytes differ by a burst of at most the CRC
+width: if the first is accepted, the second is rejected with "invalid CRC value". -/
+theorem canonical_burst_rejected (t : Nat) (ht : t = 1 ∨ t = 2) (bs bs' r0 r0' r x : Bytes)
+    (h1 : canonicalPre bs = .ok (6, t, r0, r)) (h2 : canonicalPre bs' = .ok (6, t, r0', r))
+    (hlen : (consumed r0 r).length = (consumed r0' r).length)
+    (hb : span (xorBits (bitsOf (consumed r0 r)) (bitsOf (consumed r0' r))) ≤ crcWidth t)
+    (hne : consumed r0 r ≠ consumed r0' r)
+    (hacc : parseCanonical bs = .ok x) : parseCanonical bs' = .error .crc :=
+  Lemmas.canonical_burst_rejected t ht bs bs' r0 r0' r x h1 h2 hlen hb hne hacc
+
+/-- **`primary_burst_rejected`**: the same for the primary block (9 or 11 elements; the array head is part
+of the protected bytes). -/
+theorem primary_burst_rejected (t : Nat) (ht : t = 1 ∨ t = 2) (bs bs' r x : Bytes) (n n' : Nat)
+    (hn : n = 9 ∨ n = 11) (hn' : n' = 9 ∨ n' = 11)
+    (h1 : primaryPre bs = .ok (n, t, r)) (h2 : primaryPre bs' = .ok (n', t, r))
+    (hlen : (consumed bs r).length = (consumed bs' r).length)
+    (hb : span (xorBits (bitsOf (consumed bs r)) (bitsOf (consumed bs' r))) ≤ crcWidth t)
+    (hne : consumed bs r ≠ consumed bs' r)
+    (hacc : parsePrimary bs = .ok x) : parsePrimary bs' = .error .crc :=
+  Lemmas.primary_burst_rejected t ht bs bs' r x n n' hn hn' h1 h2 hlen hb hne hacc
 
 /-- **`field_error_rejected`**: any change of the transmitted CRC value itself is rejected. -/
 theorem field_error_rejected (t : Nat) (buf field field' rest rest' : Bytes)
@@ -230,6 +252,30 @@ theorem field_error_rejected (t : Nat) (buf field field' rest rest' : Bytes)
 theorem frame_start_rejected (b : UInt8) (rest : Bytes) (h : b.toNat ≠ 0x9F) :
     parseBundle (b :: rest) = .other :=
   Lemmas.frame_start_rejected b rest h
+
+/-- **`frame_end_rejected`**: every single-bit change of the closing 0xFF makes the block loop fail,
+whatever follows. -/
+theorem frame_end_rejected (x : UInt8)
+    (hx : x = 0xFE ∨ x = 0xFD ∨ x = 0xFB ∨ x = 0xF7 ∨ x = 0xEF ∨ x = 0xDF ∨ x = 0xBF ∨ x = 0x7F)
+    (rest : Bytes) (fuel k : Nat) : canonicalLoop crcCalc (fuel + 1) k (x :: rest) = .other := by
+  have h := Lemmas.frame_end_rejected x hx rest
+  unfold parseCanonical at h
+  simp [canonicalLoop, h]
+
+/-! ## What is deliberately not a theorem
+
+"Every single-bit change of a fully protected bundle is rejected" without the same-extents hypothesis is
+false for an adversarially chosen payload: flipping one bit of the payload length (0x2c → 0x0c) ends the
+payload block early, the payload itself supplies a correct CRC item for the shortened block and a break
+byte; parsing stops there. Both encodings are accepted by the model (and by the Go parser: `adversarial`
+line of the harness). For generated bundles every bit position is enumerated by the harness instead. -/
+theorem single_bit_any_witness :
+    parseBundle [0x9f, 0x89, 0x07, 0x1a, 0x00, 0x02, 0x00, 0x00, 0x01, 0x82, 0x01, 0x64, 0x2f, 0x2f, 0x64, 0x2f, 0x82, 0x01, 0x64, 0x2f, 0x2f, 0x73, 0x2f, 0x82, 0x01, 0x64, 0x2f, 0x2f, 0x73, 0x2f, 0x82, 0x1b, 0x00, 0x00, 0x00, 0xb3, 0x1b, 0x9c, 0xb2, 0x00, 0x00, 0x1b, 0x00, 0x00, 0x02, 0xde, 0x41, 0x35, 0x30, 0x00, 0x42, 0xd6, 0x77,
+      0x86, 0x01, 0x01, 0x00, 0x01, 0x58, 0x2c, 0xa0, 0xa1, 0xa2, 0xa3, 0xa4, 0xa5, 0xa6, 0xa7, 0xa8, 0xa9, 0xaa, 0xab, 0x42, 0x93, 0x52, 0xff, 0x11, 0x11, 0x11, 0x11, 0x11, 0x11, 0x11, 0x11, 0x11, 0x11, 0x11, 0x11, 0x11, 0x11, 0x11, 0x11, 0x11, 0x11, 0x11, 0x11, 0x11, 0x11, 0x11, 0x11, 0x11, 0x11, 0x11, 0x11, 0x42, 0x2b, 0xe5, 0xff]
+      = .accept ∧
+    parseBundle [0x9f, 0x89, 0x07, 0x1a, 0x00, 0x02, 0x00, 0x00, 0x01, 0x82, 0x01, 0x64, 0x2f, 0x2f, 0x64, 0x2f, 0x82, 0x01, 0x64, 0x2f, 0x2f, 0x73, 0x2f, 0x82, 0x01, 0x64, 0x2f, 0x2f, 0x73, 0x2f, 0x82, 0x1b, 0x00, 0x00, 0x00, 0xb3, 0x1b, 0x9c, 0xb2, 0x00, 0x00, 0x1b, 0x00, 0x00, 0x02, 0xde, 0x41, 0x35, 0x30, 0x00, 0x42, 0xd6, 0x77,
+      0x86, 0x01, 0x01, 0x00, 0x01, 0x58, 0x0c, 0xa0, 0xa1, 0xa2, 0xa3, 0xa4, 0xa5, 0xa6, 0xa7, 0xa8, 0xa9, 0xaa, 0xab, 0x42, 0x93, 0x52, 0xff, 0x11, 0x11, 0x11, 0x11, 0x11, 0x11, 0x11, 0x11, 0x11, 0x11, 0x11, 0x11, 0x11, 0x11, 0x11, 0x11, 0x11, 0x11, 0x11, 0x11, 0x11, 0x11, 0x11, 0x11, 0x11, 0x11, 0x11, 0x11, 0x42, 0x2b, 0xe5, 0xff]
+      = .accept := by decide +kernel
 
 /-! ## What is *not* true of the code (recorded as known findings, `known_findings.d/C03.json`) -/
 
@@ -255,6 +301,11 @@ example : span (xorBits (bitsOf [0xff, 0x12]) (bitsOf [0x00, 0x13])) = 9 := by d
 example : crcField 1 ([1] ++ [0x00, 0x80, 0x01] ++ [9]) ≠ crcField 1 ([1] ++ [0x00, 0x00, 0x00] ++ [9]) :=
   crc_burst_detected 1 (Or.inl rfl) [1] [0x00, 0x80, 0x01] [0x00, 0x00, 0x00] [9] rfl (by decide) (by decide)
 example : BlockCrcOk 1 [0x86, 0x01, 0x01, 0x00, 0x01, 0x41, 0x78, 0x42, 0x27, 0x00] := by decide +kernel
+example : canonicalPre [0x86, 0x01, 0x01, 0x00, 0x01, 0x41, 0x78, 0x42, 0x27, 0x00, 0xff]
+    = .ok (6, 1, [0x01, 0x01, 0x00, 0x01, 0x41, 0x78, 0x42, 0x27, 0x00, 0xff], [0x42, 0x27, 0x00, 0xff]) := by
+  decide +kernel
+example : parseCanonical [0x86, 0x01, 0x01, 0x00, 0x01, 0x41, 0x78, 0x42, 0x27, 0x00, 0xff] = .ok [0xff] := by
+  decide +kernel
 example : checkField [0x86, 0x01, 0x01, 0x00, 0x01, 0x41, 0x78] 1 (encBytes [0x27, 0x00] ++ [0xff])
     = .ok ([0x27, 0x00], [0xff]) := by decide +kernel
 example : P16.msb = true ∧ P32.msb = true := by decide
